@@ -730,6 +730,11 @@ def St.sizes : St → Option String
   | .wt c => some s!"{c.len},{c.cap},{fmtBool c.isEmpty}"
   | _ => none
 
+def St.fmtSz (s : St) : String :=
+  match s.sizes with
+  | some z => s!"{s.fmt} | sz={z}"
+  | none => s.fmt
+
 def fmtOutc (o : Outc) : String :=
   let base := s!"{o.res} | {o.st.fmt}"
   let base := match o.cbs with
@@ -802,15 +807,15 @@ def handle (d : Drv) (line : String) : Drv × List String :=
     | none => (d, [])          -- constructor failed or the case was abandoned: skip
     | some w =>
       match op with
-      | "clone" =>
+      | "clone" | "clonefrom" =>
         match w.main.clone with
         | none => (d, [s!"{lhs} => BAD not cloneable"])
         | some (.error f) => ({}, [s!"{lhs} => PANIC # {faultSite f}"])
-        | some (.ok c) => ({ d with world := some { w with alt := some c } }, [s!"{lhs} => {c.fmt}"])
+        | some (.ok c) => ({ d with world := some { w with alt := some c } }, [s!"{lhs} => {c.fmtSz}"])
       | "swap" =>
         match w.alt with
         | none => (d, [s!"{lhs} => BAD no alt"])
-        | some a => ({ d with world := some { w with main := a, alt := some w.main } }, [s!"{lhs} => {a.fmt}"])
+        | some a => ({ d with world := some { w with main := a, alt := some w.main } }, [s!"{lhs} => {a.fmtSz}"])
       | "dropalt" =>
         match w.alt with
         | none => (d, [s!"{lhs} => BAD no alt"])
